@@ -508,7 +508,7 @@ def rejection(case, ctx):
 
 # ------------------------------------------------------------------------------------------------
 PLAN_MUTATIONS = ["lambd_le_1", "alpha0_nonpositive", "nalpha_not_int", "nalpha_nonpositive", "nspin_bad", "rhocut_negative",
-                  "expcut_negative", "coef_order_bad", "alpha_formula_bad", "settings_not_nldf", "none"]
+                  "expcut_negative", "coef_order_bad", "alpha_formula_bad", "settings_not_nldf", "none", "none", "none", "none"]
 
 
 @st.composite
@@ -541,7 +541,7 @@ def st_plan_rejection(draw):
             "pick": draw(st.integers(0, 5))}
 
 
-@subcheck("C18", "plan_rejection", st_plan_rejection, quick=500, thorough=10000,
+@subcheck("C18", "plan_rejection", st_plan_rejection, quick=800, thorough=10000,
           rule="NLDFGaussianPlan / NLDFSplinePlan constructor arguments (nspin, alpha0, lambd, nalpha, coef_order, alpha_formula, "
                "spline_size) with one typed mutation from the property's list: lambd <= 1, alpha0 <= 0, non-integer or "
                "non-positive nalpha, nspin not in {1,2}, negative rhocut/expcut, unknown coef_order / alpha_formula, a non-NLDF "
@@ -592,17 +592,22 @@ def plan_rejection(case, ctx):
         else:   # documented: alphas[j] = alpha0 * (lambd**j - 1) / (lambd - 1), first entry replaced by expcut
             want = pa["alpha0"] * (pa["lambd"] ** np.arange(pa["nalpha"]) - 1) / (pa["lambd"] - 1)
             ctx.close(plan.alphas[1:], want[1:], ("valid_plan", "zexp_formula"), rtol=1e-13)
-        # new() without overrides must describe the same plan (used to derive per-atom plans in the GPAW interface)
+        # new() without overrides must describe the same plan (used to derive per-atom plans in the GPAW interface);
+        # the relations are judged in an order rotated by the drawn `pick` so that one failing relation cannot hide the others
         if "plan_new" in EXCLUDE_KNOWN:
             ctx.event("excluded_known:plan_new")
-            return
-        p2 = plan.new()
-        ctx.check(type(p2) is type(plan) and p2.nspin == plan.nspin and p2.nalpha == plan.nalpha, ("plan_new", "type_or_counts"))
-        ctx.check(p2.rhocut == plan.rhocut and p2.expcut == plan.expcut, ("plan_new", "cutoffs", "nspin%d" % pa["nspin"]),
-                  rhocut=plan.rhocut, new_rhocut=p2.rhocut)
-        ctx.close(p2.alphas, plan.alphas, ("plan_new", "alphas", pa["alpha_formula"]), rtol=1e-14)
-        if pa["plan"] == "spline":
-            ctx.check(p2._spline_size == plan._spline_size, ("plan_new", "spline_size"), old=plan._spline_size, new=p2._spline_size)
+        else:
+            p2 = plan.new()
+            rel = [
+                lambda: ctx.check(type(p2) is type(plan) and p2.nspin == plan.nspin and p2.nalpha == plan.nalpha, ("plan_new", "type_or_counts")),
+                lambda: ctx.check(p2.rhocut == plan.rhocut and p2.expcut == plan.expcut, ("plan_new", "cutoffs", "nspin%d" % pa["nspin"]),
+                                  rhocut=plan.rhocut, new_rhocut=p2.rhocut),
+                lambda: ctx.close(p2.alphas, plan.alphas, ("plan_new", "alphas", pa["alpha_formula"]), rtol=1e-14),
+                lambda: ctx.check(pa["plan"] != "spline" or p2._spline_size == plan._spline_size, ("plan_new", "spline_size"),
+                                  old=getattr(plan, "_spline_size", None), new=getattr(p2, "_spline_size", None)),
+            ]
+            for k in range(len(rel)):
+                rel[(k + pick) % len(rel)]()
     else:
         try:
             plan = build_plan(settings_obj, pa, **over)
